@@ -135,7 +135,8 @@ def run_doc(ctx: Ctx, unions: list[dict], n: int, only=None) -> None:
                     else:
                         rts.append({"id": rid, "model": "Holder" + u["name"], "json": {"named": [payload], "label": "l"}})
                     earlier = [w for w in u["variants"][:vi] if w in POOL and accepts(w, payload) and w != v] if not u.get("disc") else []
-                    meta[rid] = {"u": u, "variant": v, "payload": payload, "pk": pk, "pos": pos, "earlier": earlier, "kind": "roundtrip"}
+                    others = [w for w in u["variants"] if w in POOL and accepts(w, payload) and w != v] if not u.get("disc") else []
+                    meta[rid] = {"u": u, "variant": v, "payload": payload, "pk": pk, "pos": pos, "earlier": earlier, "others": others, "kind": "roundtrip"}
         if u.get("disc"):
             # unmapped discriminator value, and a mapped variant that cannot decode (required 'name' missing / wrong type)
             rid = f"{u['name']}-unmapped"
@@ -168,6 +169,10 @@ def run_doc(ctx: Ctx, unions: list[dict], n: int, only=None) -> None:
         if m.get("earlier"):
             feats.append("earlier_variant_accepts_payload")
             rec.count("cases_earlier_variant_accepts")
+        if m.get("others"):
+            # the effective variant order is not even the declared one: `Alias | None` goes through typing's Union cache,
+            # which is keyed by set-equality, so a union with the same members declared elsewhere in another order decides
+            feats.append("another_variant_accepts_payload")
         if u.get("disc"):
             feats.append("discriminated")
         if m["kind"] == "unmapped":
